@@ -491,6 +491,54 @@ def gen_triangle(rng, max_keys=136, n_slices=None, kind=None, size="small"):
     return canon_triangle(tri)
 
 
+def gen_collapse_triangle(rng):
+    """Directed input for the writer's `prev_metadata != cell.metadata`: cells of one slice carry
+    metadata that are Python-== but not identical (True / 1 / 1.0, 5 / 5.0, 0.0 / -0.0 limit, other
+    dict order).  The implementation skips the metadata record for them, so they come back with the
+    first representation (Model.Binary.rep_py); the model predicts exactly that."""
+    kind = rng.choice(KINDS)
+    base = {a: (gen_string(rng, allow_empty=False) if rng.random() < 0.5 else None) for a in META_STR_ATTRS}
+    base["risk_basis"] = rng.choice(["Accident", "Policy"])
+    pos0, neg0 = "0000000000000000", "0000000000000080"
+    one = struct.pack("<d", 1.0).hex()
+    five = struct.pack("<d", 5.0).hex()
+    families = [
+        [[["a", ["bool", True]]], [["a", ["int", 1]]], [["a", ["float", one]]]],
+        [[["a", ["int", 5]], ["b", ["str", "x"]]], [["b", ["str", "x"]], ["a", ["float", five]]]],
+        [[["k", ["bool", False]], ["d", ["date", [2020, 2, 29]]]], [["d", ["date", [2020, 2, 29]]], ["k", ["int", 0]]],
+         [["k", ["float", neg0]], ["d", ["date", [2020, 2, 29]]]]],
+        [[["n", ["none"]], ["z", ["float", pos0]]], [["z", ["float", neg0]], ["n", ["none"]]]],
+    ]
+    fam = rng.choice(families)
+    limits = rng.choice([[None], [pos0, neg0], [five]])
+    variants = []
+    for det in fam:
+        for lim in limits:
+            m = dict(base)
+            m["limit"] = lim
+            if rng.random() < 0.5:
+                m["details"], m["loss_details"] = det, []
+            else:
+                m["details"], m["loss_details"] = [], det
+            variants.append(m)
+    # all variants of one triangle put the family in the same dictionary
+    where = rng.choice(["details", "loss_details"])
+    for m, det in zip(variants, [d for d in fam for _ in limits]):
+        m["details"], m["loss_details"] = (det, []) if where == "details" else ([], det)
+    cells = []
+    n = rng.choice([2, 3, 4, 6])
+    for i in range(n):
+        y = 2000 + i
+        m = variants[rng.randrange(len(variants))] if i else variants[0]
+        c = {"kind": kind, "ps": [y, 1, 1], "pe": [y, 12, 31], "ev": [y, 12, 31], "prev": None,
+             "values": [["paid", ["int", i]], ["v", gen_cell_value(rng)]], "meta": m}
+        if kind == "IncrementalCell":
+            c["prev"] = [y, 6, 30]
+        cells.append(c)
+    rng.shuffle(cells)
+    return canon_triangle(mk_triangle(cells))
+
+
 def all_keys_sorted(wt):
     ks = set()
     for c in wt:
@@ -926,8 +974,8 @@ def tbin_obligations(ctx):
 
 
 MY_COQ_FILES = ["Lib/Bytes.v", "Lib/BinParse.v", "Lib/Utf8.v", "Lib/StrSort.v", "Lib/ByteNames.v",
-                "Model/Binary.v", "Model/BinDesc.v", "Model/BinLayout.v", "Proofs/BinaryPrim.v",
-                "Proofs/BinaryRec.v", "Proofs/BinaryTop.v", "Proofs/BinaryLayout.v",
+                "Model/Binary.v", "Model/BinDesc.v", "Model/BinLayout.v", "Model/BinEmbed.v", "Proofs/BinaryPrim.v",
+                "Proofs/BinaryRec.v", "Proofs/BinaryTop.v", "Proofs/BinaryLayout.v", "Proofs/BinaryEmbed.v",
                 "Props/C05.v", "Props/C06.v", "Props/C19.v", "GenProps/C06_bin.v"]
 
 _ERR_CTOR = {"ValueError": "EValue", "error": "EStruct", "IndexError": "EIndex", "TypeError": "EType",
